@@ -198,6 +198,14 @@ M = [
  ('C11', 'ArrayQuantity ctor ignores element units', U+'qty.py',
   "                if(use_units and datum_units and use_units != datum_units\n                        and value != 0 and not units):",
   "                if(False and use_units and datum_units and use_units != datum_units\n                        and value != 0 and not units):"),
+ ('C02', 'SMARTS descriptor matched on the H-less molecule', G+'Scheme.py',
+  "            matches = mol.GetSubstructMatches(descriptor['smarts'],", "            matches = clean_mol.GetSubstructMatches(descriptor['smarts'],"),
+ ('C02', 'SMILES descriptor counted once per molecule', G+'Scheme.py',
+  "            matches = clean_mol.GetSubstructMatches(descriptor['smiles'],\n                                                    useChirality=descriptor\n                                                    ['useChirality'])\n            matches = set([frozenset(match) for match in matches])\n            if matches:\n                descriptors[descriptor['name']] += len(matches)",
+  "            matches = clean_mol.GetSubstructMatches(descriptor['smiles'],\n                                                    useChirality=descriptor\n                                                    ['useChirality'])\n            matches = set([frozenset(match) for match in matches])\n            if matches:\n                descriptors[descriptor['name']] += 1"),
+ ('C02', 'SMARTS descriptor matches not reduced to atom sets', G+'Scheme.py',
+  "            matches = mol.GetSubstructMatches(descriptor['smarts'],\n                                              useChirality=descriptor\n                                              ['useChirality'])",
+  "            matches = mol.GetSubstructMatches(descriptor['smarts'],\n                                              useChirality=descriptor\n                                              ['useChirality'], uniquify=False)\n            matches = [tuple(m) for m in matches]\n            descriptors[descriptor['name']] += len(matches)\n            matches = []"),
  ('C17', 'duplicate test compares atom counts only', RW+'GenRxnNet.py',
   "                        if mol1.GetNumAtoms() == mol2.GetNumAtoms() and \\\n                            mol1.GetNumAtoms() == len(mol1.GetSubstructMatch\n                                                      (mol2)):",
   "                        if mol1.GetNumAtoms() == mol2.GetNumAtoms() and \\\n                            mol1.GetNumHeavyAtoms() == mol2.GetNumHeavyAtoms():"),
